@@ -355,4 +355,19 @@ theorem runTriggers_append (ts1 ts2 : List Trigger) (c : CSet) :
     runTriggers (ts1 ++ ts2) c = runTriggers ts2 (runTriggers ts1 c) := by
   simp [runTriggers, List.foldl_append]
 
+/-- the same entry under another name -/
+def Entry.rename (ρ : List Char → List Char) (e : Entry) : Entry := { e with loc := ρ e.loc }
+
+theorem step_rename (ρ : List Char → List Char) (t : Trigger) (e : Entry) :
+    t.step (e.rename ρ) = (t.step e).rename ρ := by
+  cases t <;> simp only [Trigger.step, apply_ite (Entry.rename ρ)] <;> rfl
+
+theorem hardenWith_rename (ρ : List Char → List Char) (ts : List Trigger) (e : Entry) :
+    hardenWith ts (e.rename ρ) = (hardenWith ts e).rename ρ := by
+  induction ts generalizing e with
+  | nil => rfl
+  | cons t ts ih =>
+    show hardenWith ts (t.step (e.rename ρ)) = (hardenWith ts (t.step e)).rename ρ
+    rw [step_rename, ih]
+
 end Pkgcore.C23
